@@ -10,6 +10,7 @@ import (
 	"os/exec"
 	"path/filepath"
 	"runtime"
+	"regexp"
 	"sort"
 	"strconv"
 	"strings"
@@ -466,8 +467,48 @@ func (d *driverCfg) confirmDeath(eng Engine, job *Job, tail string) *Result {
 			break
 		}
 	}
+	if strings.Contains(stderr, "fatal error: stack overflow") {
+		// which recursion? the functions that fill the printed part of the stack; and, for the
+		// deliberately deep documents of the depth phase, which of them it was
+		sig = "process-death: stack overflow"
+		if strings.HasPrefix(c.Note, "depth:") {
+			sig += " (" + c.Note + ")"
+		}
+		sig += " in [" + strings.Join(recursiveFrames(stderr, 3), " | ") + "]"
+	}
 	return &Result{ID: job.ID, Seed: c.Seed, Verdict: "violation", Class: "process-death", Sig: sig,
 		Msg: "the process executing the build died:\n" + lastLines(stderr, 30), Case: c}
+}
+
+var frameRE = regexp.MustCompile(`(?m)^([A-Za-z0-9_./\-]+\.[A-Za-z0-9_.()*\-]+)\(`)
+
+// recursiveFrames: the n most frequent non-runtime functions of a goroutine dump, most frequent first.
+func recursiveFrames(dump string, n int) []string {
+	cnt := map[string]int{}
+	for _, m := range frameRE.FindAllStringSubmatch(dump, -1) {
+		f := m[1]
+		if strings.HasPrefix(f, "runtime.") || strings.HasPrefix(f, "main.") || strings.HasPrefix(f, "simrt.") {
+			continue
+		}
+		if i := strings.Index(f, "jsightapi/"); i >= 0 {
+			f = f[i+len("jsightapi/"):]
+		}
+		cnt[f]++
+	}
+	var fs []string
+	for f := range cnt {
+		fs = append(fs, f)
+	}
+	sort.Slice(fs, func(i, j int) bool {
+		if cnt[fs[i]] != cnt[fs[j]] {
+			return cnt[fs[i]] > cnt[fs[j]]
+		}
+		return fs[i] < fs[j]
+	})
+	if len(fs) > n {
+		fs = fs[:n]
+	}
+	return fs
 }
 
 func ownsDeath(prop string) bool { return prop == "C01" || prop == "C18" }
